@@ -82,6 +82,19 @@ ListLit(elemTy, alen, elems) ==         \* alen = -1: slice
   ELSE IF \E i \in 1..Len(elems) : ~Assignable(elems[i].val, elemTy) THEN Err("elem")
   ELSE Ok(IF alen >= 0 THEN "[2]" \o elemTy ELSE "[]" \o elemTy)
 
+(* ---- open arrays: [...]T{..}; the length is the largest position + 1 and becomes part of the type ---- *)
+RECURSIVE MaxOf(_, _)
+MaxOf(ps, i) == IF i > Len(ps) THEN -1 ELSE LET r == MaxOf(ps, i + 1) IN IF ps[i] > r THEN ps[i] ELSE r
+ArrTy(n, e) == "[" \o ToString(n) \o "]" \o e
+\* use: "none" the literal itself; "elem" [][L]T{literal}: only an array of the same length is assignable; "index" literal[L-1]
+OpenArr(elemTy, elems, use, L) ==
+  LET lit == ListLit(elemTy, -1, elems)
+      N == MaxOf(Positions(elems, 1, -1), 1) + 1 IN
+  IF ~lit.ok THEN lit
+  ELSE CASE use = "elem" -> IF N = L THEN Ok("[]" \o ArrTy(L, elemTy)) ELSE Err("lenmismatch")
+         [] use = "index" -> IF L - 1 >= N THEN Err("outofrange") ELSE Ok(elemTy)
+         [] OTHER -> Ok(ArrTy(N, elemTy))
+
 (* ---- map literals ---- *)
 \* duplicate constant keys: equal after conversion to the key type (for an interface key type the untyped constants
 \* take their default types first: 1 and 1.0 are different keys of a map[any]..)
@@ -160,8 +173,11 @@ SeqsUpTo(A, n) == IF n = 0 THEN {<<>>} ELSE LET shorter == SeqsUpTo(A, n - 1) IN
 Keys == {NoKey, c0, c1, c2, cneg, cf1, cf, vi, cs}
 ListElems == SeqsUpTo([key : Keys, val : {c1, c300, cf, cs, vi, vmy, Nil}], MaxElems)
 MapElems == SeqsUpTo([key : {c1, cf1, cs, ct, vs, vi, Nil}, val : {c1, cs, vi, vs}], MaxElems)
+OpenElems == SeqsUpTo([key : {NoKey, c0, c1, c2}, val : {c1, cs}], MaxElems + 1)
 Points ==
-  {[kind |-> "list", ety |-> e, alen |-> a, elems |-> es] : e \in {"int", "int8", "string", "any"}, a \in {-1, 2}, es \in ListElems}
+  {[kind |-> "openarr", ety |-> e, elems |-> es, use |-> u[1], l |-> u[2]] : e \in {"int", "string"}, es \in OpenElems,
+       u \in {<<"none", 0>>} \cup ({"elem"} \X (1..4))}
+  \cup {[kind |-> "list", ety |-> e, alen |-> a, elems |-> es] : e \in {"int", "int8", "string", "any"}, a \in {-1, 2}, es \in ListElems}
   \cup {[kind |-> "map", kt |-> kv[1], vt |-> kv[2], elems |-> es] : kv \in {<<"string", "int">>, <<"int", "string">>, <<"any", "any">>}, es \in MapElems}
   \cup {[kind |-> "structpos", vals |-> vs2] : vs2 \in SeqsUpTo(Values, 3)}
   \cup {[kind |-> "structkey", fs |-> f, vals |-> v] : f \in {<<"a">>, <<"b">>, <<"a", "b">>, <<"b", "a">>, <<"a", "a">>}, v \in SeqsUpTo({c1, cs, vi, vs, cf}, 2)}
@@ -174,6 +190,7 @@ VARIABLE pt
 Init == pt \in {p \in Points : (p.kind = "structkey" => Len(p.fs) = Len(p.vals)) /\ (p.kind = "slice" => (Given(p.mx) => Given(p.hi)))}
 Next == UNCHANGED pt
 Res == CASE pt.kind = "list" -> ListLit(pt.ety, pt.alen, pt.elems)
+         [] pt.kind = "openarr" -> OpenArr(pt.ety, pt.elems, pt.use, pt.l)
          [] pt.kind = "map" -> MapLit(pt.kt, pt.vt, pt.elems)
          [] pt.kind = "structpos" -> StructPos(pt.vals)
          [] pt.kind = "structkey" -> StructKeyed(pt.fs, pt.vals)
@@ -181,6 +198,8 @@ Res == CASE pt.kind = "list" -> ListLit(pt.ety, pt.alen, pt.elems)
          [] pt.kind = "slice" -> Slice(pt.x, pt.lo, pt.hi, pt.mx)
          [] pt.kind = "conv" -> Conv2(pt.t, pt.o)
          [] OTHER -> Star(pt.x)
+\* laws: an open array is assignable to exactly one length and its valid constant indices are exactly those below it
+OpenLength == (pt.kind = "openarr" /\ pt.use = "elem" /\ Res.ok) => (OpenArr(pt.ety, pt.elems, "index", pt.l).ok /\ ~OpenArr(pt.ety, pt.elems, "index", pt.l + 1).ok)
 \* laws: an accepted literal has the literal's type; dropping the last element of an accepted list / map literal keeps it accepted
 TypeIsLiteralType == (Res.ok /\ pt.kind = "list") => Res.ty = (IF pt.alen >= 0 THEN "[2]" ELSE "[]") \o pt.ety
 PrefixClosed == (Res.ok /\ pt.kind \in {"list", "map"} /\ Len(pt.elems) > 0) =>
